@@ -255,17 +255,54 @@ def _gen_variants(rng, gene, contig_seq, opts):
         gene["variants"][k]["func"] = (i < nfunc or gene["variants"][k]["kind"] == "mnp"
                                        or bool(gene["variants"][k].get("edge")))
         gene["variants"][k]["rsid"] = f"rs{1000 + int(k[1:])}" if rng.random() < 0.7 else "-"
+    # two insertions at different positions, 15-60 bp apart, the downstream inserted sequence equal to or a
+    # prefix of the upstream one; one allele carries both in cis (see _gen_alleles)
+    if opts.get("repeat_ins"):
+        for _ in range(400):
+            _, ra, rb = rng.choice(inner)
+            d = rng.randint(15, 60)
+            if rb - ra < d + 20:
+                continue
+            g = rng.randint(ra + 6, rb - d - 10)
+            x = rand_seq(rng, rng.randint(1, 4))
+            y = x if rng.random() < 0.5 else x[: rng.randint(1, len(x))]
+            if not clear(g, g + d + 2):
+                continue
+            if x[-1] == seq[g] or x[0] == seq[g + 1] or y[-1] == seq[g + d] or y[0] == seq[g + d + 1]:
+                continue
+            ids = []
+            for gg, alt, func in ((g, x, True), (g + d, y, rng.random() < 0.5)):
+                vid = max([int(k[1:]) for k in gene["variants"]] + [0]) + 1
+                gene["variants"][f"v{vid}"] = {"kind": "ins", "g": gg, "ref": "", "alt": alt, "id": f"v{vid}",
+                                               "region": _region_of(gene, gg), "func": func, "rsid": "-"}
+                ids.append(f"v{vid}")
+            taken.append((g, g + d + 2))
+            gene["cis_pair"] = ids
+            break
 
 
 def _gen_alleles(rng, gene, opts):
     """Star-allele table.  Major alleles are distinguished by their functional
     variants; sub-alleles add silent ones."""
     vs = gene["variants"]
-    func = [k for k in vs if vs[k]["func"]]
-    silent = [k for k in vs if not vs[k]["func"]]
+    cis = gene.get("cis_pair") or []
+    func = [k for k in vs if vs[k]["func"] and k not in cis]
+    silent = [k for k in vs if not vs[k]["func"] and k not in cis]
     alleles = [{"name": "1.001", "kind": "normal", "vars": []}]
     if silent and rng.random() < 0.8:
         alleles.append({"name": "1.002", "kind": "normal", "vars": [rng.choice(silent)]})
+    if opts.get("sibling_alts"):
+        # two sub-alleles of *1 that carry different silent substitutions at one position
+        ssnp = [k for k in silent if vs[k]["kind"] == "snp"
+                and sum(1 for x in vs.values() if x["g"] == vs[k]["g"]) == 1]
+        if ssnp:
+            k = ssnp[0]
+            nid = "v%d" % (max(int(x[1:]) for x in vs) + 1)
+            vs[nid] = dict(vs[k], id=nid, rsid="-", func=False,
+                           alt=[x for x in "ACGT" if x not in (vs[k]["ref"], vs[k]["alt"])][0])
+            n0 = len(alleles)
+            alleles.append({"name": f"1.{n0 + 1:03d}", "kind": "normal", "vars": [k]})
+            alleles.append({"name": f"1.{n0 + 2:03d}", "kind": "normal", "vars": [nid]})
     nmaj = opts["n_major"]
     used_sets = {()}
     num = 2
@@ -319,6 +356,16 @@ def _gen_alleles(rng, gene, opts):
         free = [f for i, f in enumerate(free) if all(vs[f]["g"] != vs[x]["g"] for x in free[:i])]
         if len(free) >= 2:
             alleles.append({"name": f"{num}.001", "kind": "normal", "vars": free[:2]})
+            num += 1
+    if cis:
+        a, b = cis
+        if vs[b]["func"]:
+            alleles.append({"name": f"{num}.001", "kind": "normal", "vars": [a, b]})
+            alleles.append({"name": f"{num + 1}.001", "kind": "normal", "vars": [a]})
+            num += 2
+        else:
+            alleles.append({"name": f"{num}.001", "kind": "normal", "vars": [a, b]})
+            alleles.append({"name": f"{num}.002", "kind": "normal", "vars": [a]})
             num += 1
     rnames = [r[0] for r in gene["regions"]]
     inner = rnames[1:-1]
